@@ -1,0 +1,32 @@
+//go:build verif
+
+// Contracts for package webrtc, checked by /verif (bfvc). Comment-only.
+package webrtc
+
+// ---- C26: roles never clash; signals use one fixed context; links only from the signalled peer ----
+
+//@ func isOfferer
+//@   ensures ret <==> a < b
+
+// for two distinct peers exactly one is the offerer
+//@ lemma offerer-antisymmetric: forall a string, b string :: a != b ==> ((a < b) <==> !(b < a))
+
+//@ func EncodeWebRtcSignal
+//@   noframe
+//@   requires pubKeyOK(dstPeer)
+//@   assert at call peer.EncryptToPubKey: same(arg0, dstPeer) && arg1 == "github.com/aperturerobotics/bifrost 2024-01-15 17:58:55 webrtc signaling"
+
+//@ func DecodeWebRtcSignal
+//@   noframe
+//@   requires privKeyOK(privKey)
+//@   assert at call peer.DecryptWithPrivKey: same(arg0, privKey) && arg1 == "github.com/aperturerobotics/bifrost 2024-01-15 17:58:55 webrtc signaling" && same(arg2, msg)
+
+// The QUIC session over the data channel is listened for / dialled with the signalled peer as the
+// required remote identity (so, with C03, a WebRTC link is only accepted from that peer), and the
+// offerer role decides which side listens.
+//@ func (*sessionTracker).executeLink
+//@   noframe
+//@   nosweep nil-deref
+//@   requires s.w != nil
+//@   assert at call quic.ListenSession: arg5 == s.peerID && s.offerer
+//@   assert at call quic.DialSession: arg6 == s.peerID && !s.offerer
